@@ -360,6 +360,12 @@ impl Calendar {
         match Calendar::JULIAN.get_jdn(post_reform.year(), ordinal) {
             Ok(date) if date <= reformation => return Err(ReformingError::InvalidReformation),
             Ok(_) => (),
+            // Underflow (as opposed to overflow) can only happen for
+            // reformations long before the two calendars diverge, and those
+            // never skip forwards.
+            Err(ArithmeticError) if reformation < 0 => {
+                return Err(ReformingError::InvalidReformation)
+            }
             Err(ArithmeticError) => return Err(ReformingError::Arithmetic),
         };
         let kind = inner::GapKind::for_dates(
